@@ -12,6 +12,8 @@ CONSTANTS
   LoneBulk = FALSE
   SDelims <- MCSDelims
   RDelims <- MCRDelims
+  RunLists <- MCRunLists
+  EvalMode = "each"
 INVARIANT DistinctInv
 INVARIANT Partition
 INVARIANT EachOnceReactions
@@ -23,4 +25,5 @@ INVARIANT EachOnceBulk
 INVARIANT CountsMatch
 INVARIANT ReadBack
 INVARIANT TubeInv
+INVARIANT RunsInv
 CHECK_DEADLOCK FALSE
